@@ -284,8 +284,12 @@ def build_payload(it, version):
         rr = None
         if it["code"] is not None:
             rr = cobjects.RevocationReason(code=enums.RevocationReasonCode(it["code"]))
+        cd = None
+        if it.get("cdate") is not None:
+            cd = primitives.DateTime(it["cdate"], tag=enums.Tags.COMPROMISE_OCCURRENCE_DATE)
         return enums.Operation.REVOKE, payloads.RevokeRequestPayload(
-            unique_identifier=None if uid is None else cattr.UniqueIdentifier(uid), revocation_reason=rr)
+            unique_identifier=None if uid is None else cattr.UniqueIdentifier(uid), revocation_reason=rr,
+            compromise_occurrence_date=cd)
     if op == "destroy":
         return enums.Operation.DESTROY, payloads.DestroyRequestPayload(
             unique_identifier=None if uid is None else cattr.UniqueIdentifier(uid))
